@@ -127,7 +127,7 @@ var c16Literals = []string{
 // that reaches what the symbol alphabet cannot within its length bound: percent escapes that decode to invalid
 // UTF-8 or to letters, raw invalid bytes, letters whose lower-case form is longer than they are, upper case,
 // numbers beyond 64 bits.
-var c16Tokens = []string{"%a0", "%FF", "%41", "\xff", "\u023a", "\u00e9", "U", "d", "p", "%", "=", "&", "0", "99999999999999999999", "-", "[", ":"}
+var c16Tokens = []string{"%a0", "%FF", "%41", "\xff", "\u023a", "\u00e9", "U", "d", "p", "%", "=", "&", "0", "99999999999999999999", "-", "[", ":", "xn--", "."}
 var c16Templates = [][2]string{
 	{"turn:h?transport=", ""},
 	{"turns:h:1?transport=", ""},
@@ -139,6 +139,56 @@ var c16Templates = [][2]string{
 }
 
 const c16SlotLen = 4
+
+// IPv6 literal family: every textual shape of an IPv6 address with up to 6 groups from a small group alphabet, with
+// the "::" compression at every position or absent, with and without a trailing dotted quad, in a bare and in a
+// complete URI. (Prefixes such as "::ffff:" mean something only at one position; the shapes put them everywhere.)
+var c16V6Groups = []string{"0", "1", "ffff", "FFFF"}
+var c16V6Cache []string
+
+func c16V6() []string {
+	if c16V6Cache != nil {
+		return c16V6Cache
+	}
+	var out []string
+	var groups []string
+	emit := func() {
+		n := len(groups)
+		for cp := -1; cp <= n; cp++ {
+			var text string
+			if cp < 0 {
+				text = strings.Join(groups, ":")
+			} else {
+				text = strings.Join(groups[:cp], ":") + "::" + strings.Join(groups[cp:], ":")
+			}
+			for _, tail := range []string{"", "192.0.2.1"} {
+				t := text
+				if tail != "" {
+					if t != "" && !strings.HasSuffix(t, ":") {
+						t += ":"
+					}
+					t += tail
+				}
+				out = append(out, "stun:["+t+"]", "turn:["+t+"]:3478?transport=udp")
+			}
+		}
+	}
+	var rec func()
+	rec = func() {
+		emit()
+		if len(groups) == 6 {
+			return
+		}
+		for _, g := range c16V6Groups {
+			groups = append(groups, g)
+			rec()
+			groups = groups[:len(groups)-1]
+		}
+	}
+	rec()
+	c16V6Cache = out
+	return out
+}
 
 func c16SlotCount() int64 {
 	n, cnt, total := int64(len(c16Tokens)), int64(1), int64(0)
@@ -189,11 +239,15 @@ func c16Item(i int64, maxLen int) string {
 	if j < int64(len(c16Literals)) {
 		return strings.Clone(c16Literals[j]) // and a heap copy of it
 	}
-	return c16SlotItem(j - int64(len(c16Literals)))
+	j -= int64(len(c16Literals))
+	if j < c16SlotCount() {
+		return c16SlotItem(j)
+	}
+	return c16V6()[j-c16SlotCount()]
 }
 
 func c16Total(maxLen int) int64 {
-	return c16Count(maxLen)*int64(len(c16Prefixes)) + int64(len(c16Long())) + 2*int64(len(c16Literals)) + c16SlotCount()
+	return c16Count(maxLen)*int64(len(c16Prefixes)) + int64(len(c16Long())) + 2*int64(len(c16Literals)) + c16SlotCount() + int64(len(c16V6()))
 }
 
 // uriInvariants checks what C16/C17 demand of any single ParseURI result.
